@@ -1,4 +1,5 @@
 import SlipVerif.Model.Lambda
+import SlipVerif.Model.LambdaCase
 import SlipVerif.Model.LambdaImpl
 import SlipVerif.Driver.Util
 --! namespace: ll
@@ -14,6 +15,7 @@ import SlipVerif.Driver.Util
                                            DefLambda on the raw list, then Lambda.Call; one entry per parameter)
      ll hist <op>*   op = d:<name-hex>:<lambda-list> | c:<name-hex>:<args>
                      -> ok <result>;<result>;…  one per call: undef | err badLL | err <BindErr> | ok/<name-hex>=<term>/…
+   lambda lists are read by parseLLci (Model/LambdaCase.lean): markers in any case (&OPTIONAL, &Rest …)
    term: n | i:<dec> | y:<hex> (symbol) | k:<hex> (keyword) | s:<hex> (string) | (<term>,<term>,…) -/
 namespace SlipVerif.Driver.Lambda
 open SlipVerif.Lambda SlipVerif.Driver
@@ -81,7 +83,7 @@ def parseOp (s : String) : Option (Except Unit Op) :=
     match unhexString? name, parseObj (":".intercalate rest) with
     | some n, some o =>
       if kind = "d" then
-        match parseLL o with
+        match parseLLci o with
         | .ok ll => some (.ok (.define n ll))
         | .error _ => some (.error ())
       else if kind = "c" then (o.toList?).map (fun as => .ok (.call n as))
@@ -126,7 +128,7 @@ def handle (entry : String) (args : List String) : String :=
   | "bind", [l, a] =>
     match parseObj l, parseObj a with
     | some lo, some ao =>
-      match parseLL lo, ao.toList? with
+      match parseLLci lo, ao.toList? with
       | .error _, _ => "err badLL"
       | _, none => "bad-request args"
       | .ok ll, some as =>
@@ -138,7 +140,7 @@ def handle (entry : String) (args : List String) : String :=
   | "chain", l :: a :: steps =>
     match parseObj l, parseObj a with
     | some lo, some ao =>
-      match parseLL lo, ao.toList?, steps.mapM (fun s => if s = "-" then some none else (parseObj s).bind (fun o => o.toList?.map some)) with
+      match parseLLci lo, ao.toList?, steps.mapM (fun s => if s = "-" then some none else (parseObj s).bind (fun o => o.toList?.map some)) with
       | .error _, _, _ => "err badLL"
       | _, none, _ => "bad-request args"
       | _, _, none => "bad-request step"
@@ -152,7 +154,7 @@ def handle (entry : String) (args : List String) : String :=
   | "arity", [l] =>
     match parseObj l with
     | some lo =>
-      match parseLL lo with
+      match parseLLci lo with
       | .error _ => "err badLL"
       | .ok ll => s!"ok {(arity ll).1} {showMax (arity ll).2}"
     | none => "bad-request term"
